@@ -827,6 +827,8 @@ class SendProduceReqHandler(BaseHandler):
             await self._client._maybe_wait_metadata()
 
     def handle_response(self, response):
+        txn_manager = self._sender._txn_manager
+        fatal_error = None
         for topic, partitions in response.topics:
             for partition_info in partitions:
                 global_error = None
@@ -884,6 +886,14 @@ class SendProduceReqHandler(BaseHandler):
                     else:
                         exc = error()
                     batch.failure(exception=exc)
+                    if (
+                        txn_manager is not None
+                        and txn_manager.transactional_id is not None
+                        and error in (InvalidProducerEpoch, OutOfOrderSequenceNumber)
+                    ):
+                        # The transactional producer can not continue after
+                        # those, same as if a transactional request got them
+                        fatal_error = exc
                 else:
                     log.warning(
                         "Got error produce response on topic-partition"
@@ -895,6 +905,8 @@ class SendProduceReqHandler(BaseHandler):
                     if getattr(error, "invalid_metadata", False):
                         self._client.force_metadata_update()
                     self._to_reenqueue.append(batch)
+        if fatal_error is not None:
+            raise fatal_error
 
     def handle_error(self):
         return self._default_backoff
